@@ -71,6 +71,15 @@ BuyStorage(s, for, units, days, ref, quote, gid) ==
           /\ bal' = b4
           /\ UNCHANGED <<files, now, height, par>> /\ last' = lbl
 
+(* A gauge opened outside the message handlers, as genesis or an upgrade can: amt of the payment denomination, possibly     *)
+(* held next to coins of other denominations in the same gauge record; funded from outside the modelled accounts.          *)
+MkGauge(gid, amt, days) ==
+  LET lbl == [a |-> "mkgauge", amt |-> amt, days |-> days, ok |-> TRUE] IN
+  /\ gid \in DOMAIN bal /\ gid \notin DOMAIN gauges
+  /\ gauges' = Put(gauges, gid, [start |-> now, end |-> now + days * 24, amt |-> amt])
+  /\ bal' = [bal EXCEPT ![gid] = @ + amt]
+  /\ UNCHANGED <<plans, files, now, height, par>> /\ last' = lbl
+
 (* PostFile. pay = "plan" (Expires = 0) or "once" (Expires > 0, `days` whole days, quote = cost).  *)
 (* deviation "space": RemoveFile does not hand the footprint back (delete, drop, re-post).          *)
 (* deviation "sizes": the pinned ValidateBasic accepts sizes / replication <= 0.                    *)
